@@ -38,7 +38,9 @@ def count_nodes(v):
 def small_values(rng, n):
     fixed = [{"a": {"x": [1], "y": [2]}, "b": [3]}, [[[1]]], {"a": 1, "b": 2, "c": 3}, [1, [2, 3], {"a": 4}], {"a": [1, 2], "b": {"c": []}}, [], {}, 5, [{}, {}],
              {"a": {"b": {"c": 1}}}, [[1, 2], [3, 4]], {"x": [[], {}], "y": 0}, {"a": [1], "b": [2], "c": [3]}, {"a": {}, "b": [], "c": {}}, {"a": [], "b": {}, "c": [], "d": {}},
-             [{"a": [], "b": [], "c": []}], {"p": {"a": {}, "b": {}, "c": {}}}]
+             [{"a": [], "b": [], "c": []}], {"p": {"a": {}, "b": {}, "c": {}}},
+             # three or more visited nodes with unvisited container children at once: the choice among ALL pending nodes matters, not only oldest / newest
+             [[[[1]], [2]], [3]], [[[1]], [[2]], [3]], [[[[1]]], [[2]], [3]], {"a": [[[1]], [2]], "b": [3]}]
     for v in fixed: yield v
     k = 0
     while k < n:
